@@ -176,54 +176,52 @@ def run(ctx):
 
 
 def bool_number(ctx, facts, roles, f, cfg):
-    """Every Number::from_f64(c) feeding the recursion sits under the boolean's own edge with c = 1 (true) / 0 (false)."""
+    """Every Number::from_f64(c) that turns a boolean operand into a number gets c = 1 on the paths where the boolean is
+    true and c = 0 where it is false — read off the path summaries (rules/pathsum.py), so it does not matter whether the
+    choice is two match arms, an `if` feeding one conversion site, or a cast of the boolean."""
+    from . import pathsum
     n = 0
     for b in roles.unit(f.key):
-        for bi, t in b.calls():
-            if callee_path(t) != "serde_json::Number::from_f64":
-                continue
-            a = strip_refs(b.trace(t["args"][0]))
-            c = None
-            if a[0] == "const":
-                c = const_value(a[1])
-            elif a[0] == "cast" and strip_refs(a[2])[0] == "const":
-                c = float(const_value(strip_refs(a[2])[1]))
-            truth = None
-            for sb in b.reachable():
-                tt = b.blocks[sb]["term"]
-                if tt["k"] == "SwitchInt" and tt.get("dty") == "bool":
-                    e = strip_refs(b.trace(tt["discr"]))
-                    if e[0] == "field" and e[1][0] == "downcast" and e[1][2] == "Bool":
-                        for tr in (True, False):
-                            if edge_dominates(b, sb, bool_edge(b, sb, tr), bi) and not edge_dominates(b, sb, bool_edge(b, sb, not tr), bi):
-                                truth = tr
-            if c is None and a[0] == "phi":
-                # one conversion site fed by `if b { 1.0 } else { 0.0 }`: each definition of the number sits under its own edge of the boolean
-                defs_ = b.defs().get(a[1], [])
-                sws = []
-                for sb in b.reachable():
-                    tt = b.blocks[sb]["term"]
-                    if tt["k"] == "SwitchInt" and tt.get("dty") == "bool":
-                        e = strip_refs(b.trace(tt["discr"]))
-                        if e[0] == "field" and e[1][0] == "downcast" and e[1][2] == "Bool":
-                            sws.append(sb)
-                pairs_ = []
-                for d in defs_:
-                    cv = None
-                    if d[0] == "stmt" and d[3]["k"] == "Use" and d[3]["op"]["k"] == "Const":
-                        cv = const_value(d[3]["op"]["const"])
-                    tr = None
-                    for sb in sws:
-                        for t2 in (True, False):
-                            if edge_dominates(b, sb, bool_edge(b, sb, t2), d[1]) and not edge_dominates(b, sb, bool_edge(b, sb, not t2), d[1]):
-                                tr = t2
-                    pairs_.append((tr, cv))
+        if not any(callee_path(t) == "serde_json::Number::from_f64" for _, t in b.calls()):
+            continue
+        w = pathsum.summarize(b, max_paths=20000)
+        if w.overflow:
+            ctx.unread("K2.true-is-one", "%s (%s)" % (b.key.split("::", 1)[1], cfg), "too many paths to summarise", where=b.where(), fn=b.key)
+            continue
+        seen = {}
+        for p in w.paths:
+            for ev in p.events:
+                c = ev[1]
+                if not c or c["path"] != "serde_json::Number::from_f64":
+                    continue
+                a = strip_refs(ev[2][0])
+                while a[0] == "cast" and a[1] in ("IntToFloat", "IntToInt", "FloatToFloat"):
+                    a = strip_refs(a[2])
+                val = None
+                if a[0] == "const":
+                    v_ = const_value(a[1])
+                    val = float(v_) if isinstance(v_, (int, float)) and not isinstance(v_, bool) else (float(v_) if isinstance(v_, bool) else None)
+                    if isinstance(v_, bool):
+                        continue      # `true as u8 as f64`: by definition
+                elif a[0] == "field" and a[1][0] == "downcast" and a[1][2] == "Bool":
+                    seen[(ev[3], "cast")] = True      # `b as u8 as f64`: true → 1, false → 0 by the language
+                    continue
+                # the boolean payload this path has decided
+                truth = None
+                for (key, tv) in p.order:
+                    if key[0] == "expr" and "'Bool'" in key[1] and isinstance(tv, bool):
+                        truth = tv
+                    elif key[0] == "cmp" and key[1] == "Eq" and "'Bool'" in (key[2] + key[3]) and isinstance(tv, bool):
+                        lit = key[3] if key[2].startswith("(") else key[2]
+                        truth = tv if lit == "c:True" else (not tv) if lit == "c:False" else None
+                seen.setdefault((ev[3], truth, val), p)
+        for k in seen:
+            if k[1] == "cast":
                 n += 1
-                good = len(pairs_) == 2 and sorted(pairs_, key=lambda x: str(x[0])) == [(False, 0.0), (True, 1.0)]
-                ctx.check(good, "K2.true-is-one", "from_f64 site fed by a two-way choice on the boolean (%s)" % cfg,
-                          "a boolean is converted to the number by the choice %s (ECMAScript: true → 1, false → 0)" % pairs_, where=b.where(bi), fn=b.key, nontrivial=True)
+                ctx.ok("K2.true-is-one", "from_f64 site bb%d: the boolean cast to a number (%s)" % (k[0], cfg), nontrivial=True)
                 continue
+            bi, truth, val = k
             n += 1
-            ctx.check(truth is not None and c == (1.0 if truth else 0.0), "K2.true-is-one", "from_f64 site bb%d: %s → %s (%s)" % (bi, truth, c, cfg),
-                      "a boolean %s is converted to the number %s (ECMAScript: true → 1, false → 0)" % (truth, c), where=b.where(bi), fn=b.key, nontrivial=True)
+            ctx.check(truth is not None and val == (1.0 if truth else 0.0), "K2.true-is-one", "from_f64 site bb%d: %s → %s (%s)" % (bi, truth, val, cfg),
+                      "a boolean %s is converted to the number %s (ECMAScript: true → 1, false → 0)" % (truth, val), where=b.where(bi), fn=b.key, nontrivial=True)
     ctx.floor("boolean→number conversion sites (%s)" % cfg, n, 1)
